@@ -9,7 +9,7 @@ F7_WHAT = "empty control-point list computed on buffers that hold a previous pat
 class C16(Property):
     id = "C16"
     lean_module = "RosuModel.Props.C16Full"   # imports Props/C16Surplus.lean (→ Props/C16Exact.lean → Props/C16.lean) and Props/C16Ieee.lean; all in namespace Rosu.C16
-    theorem_modules = ['RosuModel.Props.C16Surplus', 'RosuModel.Props.C16Ieee', 'RosuModel.Props.C16IeeeLen']   # files whose top-level theorems are all audited
+    theorem_modules = ['RosuModel.Props.C16Surplus', 'RosuModel.Props.C16Ieee', 'RosuModel.Props.C16IeeeLen', 'RosuModel.Props.C16IeeeAdj', 'RosuModel.Props.C16IeeeAdjWitness']   # files whose top-level theorems are all audited
     namespace = "Rosu.C16"
     design_ref = "5.16"
     level_text = (
